@@ -5,9 +5,13 @@ import json, os, glob
 R = os.path.abspath(os.path.join(os.path.dirname(__file__), '..'))
 props = [json.loads(l)['id'] for l in open(os.path.join(R, 'properties.jsonl'))]
 checks = []
+hold_path = os.path.join(R, 'manifest.d', 'HOLD')   # ids whose fragment exists but whose check is not finished: not claimed yet
+hold = set(open(hold_path).read().split()) if os.path.exists(hold_path) else set()
 for f in sorted(glob.glob(os.path.join(R, 'manifest.d', 'C*.json'))):
     c = json.load(open(f))
     pid = c['property_id']
+    if pid in hold:
+        continue
     c.setdefault('quick_cmd', './check %s quick' % pid)
     c.setdefault('thorough_cmd', './check %s thorough' % pid)
     c.setdefault('evidence_file', 'evidence/%s.json' % pid)
